@@ -44,7 +44,14 @@ class C13(hc.PProp):
                 if rng.random() < 0.2:
                     parts.append(parts[0])
                 vary = rng.choice([', ', ',', ' , ']).join(parts)
-            urls.append({'sizes': [rng.choice([10, 3000, 40000])], 'lm': True, 'cc': 'max-age=100000', 'vary': vary, 'names': names, 'bump_on_serve': True, 'nver': 40})
+            url = {'sizes': [rng.choice([10, 3000, 40000])], 'lm': True, 'cc': 'max-age=100000', 'vary': vary, 'names': names, 'bump_on_serve': True, 'nver': 40}
+            if names and rng.random() < 0.3:
+                # the origin's Vary list grows (or becomes *) from some version on: variants stored later must be matched on the list THEY carry
+                more = [n for n in NAMES if n not in names]
+                n2 = names + rng.sample(more, rng.randint(1, min(2, len(more))))
+                url['vary_switch'] = [rng.randint(2, 4), rng.choice([', '.join(n2), ', '.join(n2), '*'])]
+                url['names2'] = n2
+            urls.append(url)
         plan['urls'] = urls
         pools = {n: rng.sample(VALUES, rng.randint(2, 4)) for n in NAMES}
         steps = []
@@ -96,6 +103,8 @@ class C13(hc.PProp):
             stats['hits_total'] += 1
             if url['vary'] is None:
                 continue
+            if r.ver is not None and url.get('vary_switch') and r.ver >= url['vary_switch'][0]:
+                url = dict(url, vary=url['vary_switch'][1], names=url['names2'])   # judge by the Vary list of the version that was served
             if url['vary'] == '*':
                 V.append(Violation('C13:vary-star-served-from-cache', 'request %s for url %d (Vary: *) was answered without contacting the origin' % (r.id, r.u)))
                 continue
